@@ -33,6 +33,14 @@ class Fac:
         return 'Fac(%s)' % s.tag
 
 
+class FalsyFac(Fac):
+    """A registered factory that is false in a boolean context: only None
+    means "nothing registered"."""
+
+    def __bool__(s):
+        return False
+
+
 class H:
     def __init__(self):
         newworld()
@@ -56,7 +64,7 @@ class H:
                      # registered for a class (its specification), not an interface
                      ((implementedBy(A),), P0, 'n')]
         self.KEYS2 = [((R0, R0), P0, ''), ((R1, R0), P0, ''), ((R0, R1), P1, 'n')]
-        self.VALS = [Fac('f'), Fac('g'), Fac('nonefac', none=True)]
+        self.VALS = [Fac('f'), FalsyFac('g'), Fac('nonefac', none=True)]
         self.P = {'P0': P0, 'P1': P1}
 
 
